@@ -65,7 +65,7 @@ def parts(ck):
     for port in ("telnet", "ascii", "console"):
         add(S, ["--family=long", "--port=" + port], "long-%s-mt48" % port, 20, 40)
         add(S, ["--family=lines", "--port=" + port], "lines-%s-mt48" % port, 20, 40)
-        add(R, ["--family=long", "--port=" + port] + (["--around=1"] if q else []), "long-%s" % port, 4, 40 if q else 120)
+        add(R, ["--family=long", "--port=" + port] + (["--around=1"] if q else []), "long-%s" % port, 4, 40 if q else 240)
         add(R, ["--family=lines", "--port=" + port, "--kstep=%d" % (64 if q else 8)], "lines-%s" % port, 4, 40 if q else 100)
     # (d) sub-negotiations
     add(R, ["--family=sb"], "sb", 50, 60)
